@@ -14,6 +14,25 @@
  *   key  : 8 / 24 / 8 / 16 / 16 / 16 / 16 bytes
  *   iv   : 8 / 8 / 8 / 8 / - / 16 / 16 bytes
  *
+ * Direct (non-job) entry points of KASUMI and SNOW3G ("api=direct:<name>" dimension; --batch 1 only):
+ *   <id> direct:<name> <n> <len0,len1,..> <off> <key0[,key1,..]> <ivhex> <msgseed>
+ *   name : kasumi_f8_1_buffer | kasumi_f8_1_buffer_bit | kasumi_f8_2_buffer | kasumi_f8_3_buffer |
+ *          kasumi_f8_4_buffer | kasumi_f8_n_buffer | kasumi_f9_1_buffer | kasumi_f9_1_buffer_user |
+ *          snow3g_f8_1_buffer | snow3g_f8_1_buffer_bit | snow3g_f8_2_buffer | snow3g_f8_4_buffer |
+ *          snow3g_f8_8_buffer | snow3g_f8_8_buffer_multikey | snow3g_f8_n_buffer |
+ *          snow3g_f8_n_buffer_multikey | snow3g_f9_1_buffer          (= IMB_<NAME>(mgr, ...))
+ *   n    : number of buffers of the call (1..16; fixed by the entry point except for *_n_buffer*)
+ *   len  : n lengths in the unit the entry point takes (bytes; bits for *_bit, kasumi_f9_1_buffer_user
+ *          and snow3g_f9_1_buffer); kasumi_f8_3/4_buffer take the first one (common length)
+ *   off  : bit offset (*_bit), direction bit (kasumi_f9_1_buffer_user), else 0
+ *   key  : one 16-byte key, or n keys for the *_multikey entry points
+ *   iv   : base IV (KASUMI 8 bytes, SNOW3G 16 bytes, "-" for kasumi_f9_1_buffer); buffer i uses the
+ *          base IV with its last byte xor i
+ * The key schedule(s) are built by IMB_KASUMI_INIT_F8/F9_KEY_SCHED / IMB_SNOW3G_INIT_KEY_SCHED
+ * before the markers (outside the property, as for jobs); the marked / traced region is the one
+ * processing call; the expanded key schedules are the secret.  status=3 iff the call left
+ * imb_get_errno() == 0; out= is the concatenation of the n output buffers (or the 4-byte tag).
+ *
  * For every group of N (--batch, default 1) consecutive cases the jobs are
  * prepared exactly as an application would (key schedule built by the library's
  * helper from the raw key), then
@@ -123,10 +142,336 @@ typedef struct {
         size_t out_len;
         int status, done;
         void *user;
+        int direct; /* 0: job; else 1 + index into direct_names[] */
 } slot_t;
 
 static slot_t slots[MAXBATCH];
 static size_t s3g_size;
+
+
+/* ---------------------------------------------------------------------------------------------
+ * direct (non-job) entry points
+ * ------------------------------------------------------------------------------------------- */
+#define DMAX     16
+#define DSTRIDE  (MAXLEN + 128)
+#define DKSTRIDE 64
+
+enum {
+        D_KAS_F8_1 = 0, D_KAS_F8_1_BIT, D_KAS_F8_2, D_KAS_F8_3, D_KAS_F8_4, D_KAS_F8_N, D_KAS_F9_1,
+        D_KAS_F9_1_USER, D_S3G_F8_1, D_S3G_F8_1_BIT, D_S3G_F8_2, D_S3G_F8_4, D_S3G_F8_8,
+        D_S3G_F8_8_MULTI, D_S3G_F8_N, D_S3G_F8_N_MULTI, D_S3G_F9_1, D_COUNT
+};
+
+static const char *const direct_names[D_COUNT] = {
+        "kasumi_f8_1_buffer", "kasumi_f8_1_buffer_bit", "kasumi_f8_2_buffer", "kasumi_f8_3_buffer",
+        "kasumi_f8_4_buffer", "kasumi_f8_n_buffer", "kasumi_f9_1_buffer", "kasumi_f9_1_buffer_user",
+        "snow3g_f8_1_buffer", "snow3g_f8_1_buffer_bit", "snow3g_f8_2_buffer", "snow3g_f8_4_buffer",
+        "snow3g_f8_8_buffer", "snow3g_f8_8_buffer_multikey", "snow3g_f8_n_buffer",
+        "snow3g_f8_n_buffer_multikey", "snow3g_f9_1_buffer"
+};
+/* fixed number of buffers (0: any 1..DMAX) */
+static const unsigned direct_fixed_n[D_COUNT] = { 1, 1, 2, 3, 4, 0, 1, 1, 1, 1, 2, 4, 8, 8, 0, 0, 1 };
+
+/* the argument block of the one direct call of a group: everything in it is public */
+typedef struct {
+        unsigned n;
+        uint32_t off;
+        uint32_t lens[DMAX];
+        uint64_t iv64[DMAX];
+        const void *src[DMAX];
+        void *dst[DMAX];
+        const void *ivp[DMAX];
+        const snow3g_key_schedule_t *s3gp[DMAX];
+        size_t outbytes[DMAX];
+        const void *fn; /* the function the manager dispatches to (reported, never compared) */
+} dcall_t;
+
+static dcall_t dcall;
+static uint8_t *dsrc, *ddst, *div_, *ds3g, *dout; /* arenas: allocated once, reused by every case */
+
+static void
+direct_alloc(void)
+{
+        dsrc = xalloc((size_t) DMAX * DSTRIDE);
+        ddst = xalloc((size_t) DMAX * DSTRIDE);
+        div_ = xalloc((size_t) DMAX * 64);
+        ds3g = xalloc((size_t) DMAX * DKSTRIDE);
+        dout = xalloc((size_t) DMAX * MAXLEN);
+}
+
+static int
+prepare_direct(IMB_MGR *mgr, slot_t *s, const char *line)
+{
+        static char name[64], lens[256], keys[1024], ivhex[128];
+        unsigned n;
+        unsigned long off;
+        unsigned long long seed;
+        uint8_t key[DMAX][16], ivb[32];
+        int api = -1;
+
+        if (s != &slots[0] || dsrc == NULL)
+                return -1; /* the direct arenas exist once: --batch 1 */
+        if (sscanf(line, "%63s direct:%63s %u %255s %lu %1023s %127s %llu", s->id, name, &n, lens, &off,
+                   keys, ivhex, &seed) != 8)
+                return -1;
+        for (int i = 0; i < D_COUNT; i++)
+                if (strcmp(name, direct_names[i]) == 0)
+                        api = i;
+        if (api < 0 || n < 1 || n > DMAX || (direct_fixed_n[api] != 0 && n != direct_fixed_n[api]))
+                return -1;
+        const int is_kasumi = api <= D_KAS_F9_1_USER;
+        const int multikey = api == D_S3G_F8_8_MULTI || api == D_S3G_F8_N_MULTI;
+        const int bits = api == D_KAS_F8_1_BIT || api == D_KAS_F9_1_USER || api == D_S3G_F8_1_BIT ||
+                         api == D_S3G_F9_1;
+        const int is_mac = api == D_KAS_F9_1 || api == D_KAS_F9_1_USER || api == D_S3G_F9_1;
+        const int has_off = api == D_KAS_F8_1_BIT || api == D_S3G_F8_1_BIT;
+        const unsigned nkeys = multikey ? n : 1;
+
+        memset(&dcall, 0, sizeof(dcall));
+        dcall.n = n;
+        dcall.off = (uint32_t) off;
+        /* lengths */
+        {
+                const char *p = lens;
+
+                for (unsigned i = 0; i < n; i++) {
+                        char *e;
+                        const unsigned long v = strtoul(p, &e, 10);
+
+                        if (e == p || (i + 1 < n && *e != ',') || (i + 1 == n && *e != 0))
+                                return -1;
+                        const unsigned long nb = bits ? ((has_off ? off : 0) + v + 7) / 8 : v;
+
+                        if (v == 0 || nb > MAXLEN)
+                                return -1;
+                        dcall.lens[i] = (uint32_t) v;
+                        dcall.outbytes[i] = is_mac ? 0 : nb;
+                        p = e + 1;
+                }
+        }
+        /* keys */
+        {
+                const char *p = keys;
+
+                for (unsigned i = 0; i < nkeys; i++) {
+                        char one[40];
+
+                        if (strlen(p) < 32 || (p[32] != ',' && p[32] != 0))
+                                return -1;
+                        memcpy(one, p, 32);
+                        one[32] = 0;
+                        if (hex2bin(one, key[i], 16) != 16)
+                                return -1;
+                        p += p[32] ? 33 : 32;
+                }
+                if (*p != 0)
+                        return -1;
+        }
+        const int ivlen = hex2bin(ivhex, ivb, sizeof(ivb));
+        const int want_iv = api == D_KAS_F9_1 ? 0 : (is_kasumi ? 8 : 16);
+
+        if (ivlen != want_iv)
+                return -1;
+        /* public data */
+        memset(s->tag, 0x3c, 64);
+        for (unsigned i = 0; i < n; i++) {
+                uint64_t st = seed + 0x1000003ULL * i;
+                uint8_t *src = dsrc + (size_t) i * DSTRIDE, *ivp = div_ + (size_t) i * 64;
+
+                for (size_t k = 0; k < MAXLEN; k += 8) {
+                        const uint64_t v = splitmix64(&st);
+
+                        memcpy(src + k, &v, 8);
+                }
+                memset(ddst + (size_t) i * DSTRIDE, 0x5a, MAXLEN);
+                memset(ivp, 0, 64);
+                memcpy(ivp, ivb, (size_t) ivlen);
+                if (ivlen > 0)
+                        ivp[ivlen - 1] ^= (uint8_t) i;
+                memcpy(&dcall.iv64[i], ivp, 8);
+                dcall.src[i] = src;
+                dcall.dst[i] = ddst + (size_t) i * DSTRIDE;
+                dcall.ivp[i] = ivp;
+        }
+        /* secrets: the expanded key schedules (built outside the marked region) */
+        if (is_kasumi) {
+                if (is_mac)
+                        IMB_KASUMI_INIT_F9_KEY_SCHED(mgr, key[0], s->kas);
+                else
+                        IMB_KASUMI_INIT_F8_KEY_SCHED(mgr, key[0], s->kas);
+                s->sec_ptr = s->kas;
+                s->sec_len = sizeof(*s->kas);
+        } else if (!multikey) {
+                IMB_SNOW3G_INIT_KEY_SCHED(mgr, key[0], s->s3g);
+                s->sec_ptr = s->s3g;
+                s->sec_len = s3g_size;
+        } else {
+                if (s3g_size > DKSTRIDE)
+                        return -1;
+                for (unsigned i = 0; i < n; i++) {
+                        snow3g_key_schedule_t *ks = (snow3g_key_schedule_t *) (ds3g + (size_t) i * DKSTRIDE);
+
+                        IMB_SNOW3G_INIT_KEY_SCHED(mgr, key[i], ks);
+                        dcall.s3gp[i] = ks;
+                }
+                s->sec_ptr = ds3g;
+                s->sec_len = (size_t) n * DKSTRIDE;
+        }
+        if (imb_get_errno(mgr) != 0)
+                return -1;
+        if (is_mac) {
+                s->out_ptr = s->tag;
+                s->out_len = 4;
+        } else {
+                size_t tot = 0;
+
+                for (unsigned i = 0; i < n; i++)
+                        tot += dcall.outbytes[i];
+                s->out_ptr = dout;
+                s->out_len = tot;
+        }
+        s->direct = 1 + api;
+        s->ok = 1;
+        return 0;
+}
+
+/* the one processing call (inside the marked / traced region) */
+static void
+run_direct(IMB_MGR *mgr, slot_t *s)
+{
+        dcall_t *d = &dcall;
+        const uint32_t *L = d->lens;
+
+        switch (s->direct - 1) {
+        case D_KAS_F8_1:
+                IMB_KASUMI_F8_1_BUFFER(mgr, s->kas, d->iv64[0], d->src[0], d->dst[0], L[0]);
+                break;
+        case D_KAS_F8_1_BIT:
+                IMB_KASUMI_F8_1_BUFFER_BIT(mgr, s->kas, d->iv64[0], d->src[0], d->dst[0], L[0], d->off);
+                break;
+        case D_KAS_F8_2:
+                IMB_KASUMI_F8_2_BUFFER(mgr, s->kas, d->iv64[0], d->iv64[1], d->src[0], d->dst[0], L[0],
+                                       d->src[1], d->dst[1], L[1]);
+                break;
+        case D_KAS_F8_3:
+                IMB_KASUMI_F8_3_BUFFER(mgr, s->kas, d->iv64[0], d->iv64[1], d->iv64[2], d->src[0],
+                                       d->dst[0], d->src[1], d->dst[1], d->src[2], d->dst[2], L[0]);
+                break;
+        case D_KAS_F8_4:
+                IMB_KASUMI_F8_4_BUFFER(mgr, s->kas, d->iv64[0], d->iv64[1], d->iv64[2], d->iv64[3],
+                                       d->src[0], d->dst[0], d->src[1], d->dst[1], d->src[2], d->dst[2],
+                                       d->src[3], d->dst[3], L[0]);
+                break;
+        case D_KAS_F8_N:
+                IMB_KASUMI_F8_N_BUFFER(mgr, s->kas, d->iv64, d->src, d->dst, L, d->n);
+                break;
+        case D_KAS_F9_1:
+                IMB_KASUMI_F9_1_BUFFER(mgr, s->kas, d->src[0], L[0], s->tag);
+                break;
+        case D_KAS_F9_1_USER:
+                IMB_KASUMI_F9_1_BUFFER_USER(mgr, s->kas, d->iv64[0], d->src[0], L[0], s->tag, d->off & 1);
+                break;
+        case D_S3G_F8_1:
+                IMB_SNOW3G_F8_1_BUFFER(mgr, s->s3g, d->ivp[0], d->src[0], d->dst[0], L[0]);
+                break;
+        case D_S3G_F8_1_BIT:
+                IMB_SNOW3G_F8_1_BUFFER_BIT(mgr, s->s3g, d->ivp[0], d->src[0], d->dst[0], L[0], d->off);
+                break;
+        case D_S3G_F8_2:
+                IMB_SNOW3G_F8_2_BUFFER(mgr, s->s3g, d->ivp[0], d->ivp[1], d->src[0], d->dst[0], L[0],
+                                       d->src[1], d->dst[1], L[1]);
+                break;
+        case D_S3G_F8_4:
+                IMB_SNOW3G_F8_4_BUFFER(mgr, s->s3g, d->ivp[0], d->ivp[1], d->ivp[2], d->ivp[3], d->src[0],
+                                       d->dst[0], L[0], d->src[1], d->dst[1], L[1], d->src[2], d->dst[2],
+                                       L[2], d->src[3], d->dst[3], L[3]);
+                break;
+        case D_S3G_F8_8:
+                IMB_SNOW3G_F8_8_BUFFER(mgr, s->s3g, d->ivp[0], d->ivp[1], d->ivp[2], d->ivp[3], d->ivp[4],
+                                       d->ivp[5], d->ivp[6], d->ivp[7], d->src[0], d->dst[0], L[0],
+                                       d->src[1], d->dst[1], L[1], d->src[2], d->dst[2], L[2], d->src[3],
+                                       d->dst[3], L[3], d->src[4], d->dst[4], L[4], d->src[5], d->dst[5],
+                                       L[5], d->src[6], d->dst[6], L[6], d->src[7], d->dst[7], L[7]);
+                break;
+        case D_S3G_F8_8_MULTI:
+                IMB_SNOW3G_F8_8_BUFFER_MULTIKEY(mgr, d->s3gp, d->ivp, d->src, d->dst, L);
+                break;
+        case D_S3G_F8_N:
+                IMB_SNOW3G_F8_N_BUFFER(mgr, s->s3g, d->ivp, d->src, d->dst, L, d->n);
+                break;
+        case D_S3G_F8_N_MULTI:
+                IMB_SNOW3G_F8_N_BUFFER_MULTIKEY(mgr, d->s3gp, d->ivp, d->src, d->dst, L, d->n);
+                break;
+        case D_S3G_F9_1:
+                IMB_SNOW3G_F9_1_BUFFER(mgr, s->s3g, d->ivp[0], d->src[0], L[0], s->tag);
+                break;
+        default:
+                break;
+        }
+        const int e = imb_get_errno(mgr);
+
+        s->done = 1;
+        s->status = e == 0 ? (int) IMB_STATUS_COMPLETED : 1000 + e;
+}
+
+/* after the end marker: gather the outputs (copies keep memcheck's definedness bits) */
+static void
+finish_direct(IMB_MGR *mgr, slot_t *s)
+{
+        if (!s->ok || !s->direct)
+                return;
+        const void *fns[D_COUNT] = {
+                (const void *) mgr->f8_1_buffer, (const void *) mgr->f8_1_buffer_bit,
+                (const void *) mgr->f8_2_buffer, (const void *) mgr->f8_3_buffer,
+                (const void *) mgr->f8_4_buffer, (const void *) mgr->f8_n_buffer,
+                (const void *) mgr->f9_1_buffer, (const void *) mgr->f9_1_buffer_user,
+                (const void *) mgr->snow3g_f8_1_buffer, (const void *) mgr->snow3g_f8_1_buffer_bit,
+                (const void *) mgr->snow3g_f8_2_buffer, (const void *) mgr->snow3g_f8_4_buffer,
+                (const void *) mgr->snow3g_f8_8_buffer, (const void *) mgr->snow3g_f8_8_buffer_multikey,
+                (const void *) mgr->snow3g_f8_n_buffer, (const void *) mgr->snow3g_f8_n_buffer_multikey,
+                (const void *) mgr->snow3g_f9_1_buffer
+        };
+
+        dcall.fn = fns[s->direct - 1];
+        if (s->out_ptr == dout) {
+                size_t o = 0;
+
+                for (unsigned i = 0; i < dcall.n; i++) {
+                        if (dcall.dst[i] == NULL) { /* *_n_buffer signals "too many buffers" this way */
+                                s->status = 2000;
+                                continue;
+                        }
+                        memcpy(dout + o, dcall.dst[i], dcall.outbytes[i]);
+                        o += dcall.outbytes[i];
+                }
+        }
+}
+
+/* offset of the dispatched function from imb_get_version (identifies the kernel across variants) */
+static long long
+direct_fn_off(const slot_t *s)
+{
+        return s->direct ? (long long) ((intptr_t) dcall.fn - (intptr_t) &imb_get_version) : 0;
+}
+
+/* did memcheck see undefined bits in [p, p+len)?  (0 outside memcheck) */
+static int
+taint_reached(const uint8_t *p, size_t len)
+{
+        static uint8_t vb[MAXLEN + 64];
+        int r = 0;
+
+        while (len > 0) {
+                const size_t k = len > MAXLEN ? MAXLEN : len;
+
+                if (VALGRIND_GET_VBITS(p, vb, k) == 1)
+                        for (size_t i = 0; i < k; i++)
+                                r |= vb[i] != 0;
+                p += k;
+                len -= k;
+        }
+        return r;
+}
 
 static int
 prepare(IMB_MGR *mgr, slot_t *s, const char *line, IMB_JOB *tmpl)
@@ -140,7 +485,14 @@ prepare(IMB_MGR *mgr, slot_t *s, const char *line, IMB_JOB *tmpl)
         s->ok = 0;
         s->done = 0;
         s->status = -1;
+        s->direct = 0;
         snprintf(s->id, sizeof(s->id), "?");
+        {
+                char id2[64], a2[16];
+
+                if (sscanf(line, "%63s %7[a-z:]", id2, a2) == 2 && strcmp(a2, "direct:") == 0)
+                        return prepare_direct(mgr, s, line);
+        }
         if (sscanf(line, "%63s %31s %d %lu %lu %127s %127s %llu", s->id, algo, &dir, &len, &off,
                    keyhex, ivhex, &seed) != 8)
                 return -1;
@@ -346,6 +698,7 @@ main(int argc, char **argv)
                 for (int i = 0; i < 3; i++)
                         s->des3_ptrs[i] = s->des_ks[i];
         }
+        direct_alloc();
 
         printf("VARIANT arch=%u type=%u features=%llx\n", (unsigned) mgr->used_arch,
                (unsigned) mgr->used_arch_type, (unsigned long long) mgr->features);
@@ -388,6 +741,12 @@ main(int argc, char **argv)
                 for (int b = 0; b < n; b++) {
                         if (!slots[b].ok)
                                 continue;
+                        if (slots[b].direct) { /* api=direct:<name>: the one processing call */
+                                run_direct(mgr, &slots[b]);
+                                if (slots[b].status != (int) IMB_STATUS_COMPLETED && err_job == 0)
+                                        err_job = slots[b].status - 1000;
+                                continue;
+                        }
                         IMB_JOB *job = IMB_GET_NEXT_JOB(mgr);
 
                         *job = tmpl[b];
@@ -411,17 +770,18 @@ main(int argc, char **argv)
                 int reached[MAXBATCH];
 
                 for (int b = 0; b < n; b++) {
-                        static uint8_t vb[MAXLEN + 64];
-                        const size_t len = slots[b].out_len ? slots[b].out_len : 1;
-
-                        reached[b] = 0;
-                        if (slots[b].ok && VALGRIND_GET_VBITS(slots[b].out_ptr, vb, len) == 1)
-                                for (size_t i = 0; i < len; i++)
-                                        reached[b] |= vb[i] != 0;
+                        finish_direct(mgr, &slots[b]);
+                        reached[b] = slots[b].ok ? taint_reached(slots[b].out_ptr,
+                                                                 slots[b].out_len ? slots[b].out_len : 1)
+                                                 : 0;
                 }
                 /* everything back to defined: schedules, manager state, buffers */
                 (void) VALGRIND_MAKE_MEM_DEFINED(mgr, mgr_size);
                 (void) VALGRIND_MAKE_MEM_DEFINED(slots, sizeof(slots));
+                (void) VALGRIND_MAKE_MEM_DEFINED(&dcall, sizeof(dcall));
+                (void) VALGRIND_MAKE_MEM_DEFINED(ddst, (size_t) DMAX * DSTRIDE);
+                (void) VALGRIND_MAKE_MEM_DEFINED(dout, (size_t) DMAX * MAXLEN);
+                (void) VALGRIND_MAKE_MEM_DEFINED(ds3g, (size_t) DMAX * DKSTRIDE);
                 for (int b = 0; b < n; b++) {
                         slot_t *s = &slots[b];
 
@@ -440,8 +800,12 @@ main(int argc, char **argv)
                                 printf("CASE id=%s status=-1 errno=-3 errs=0 taint=0 out=-\n", s->id);
                                 continue;
                         }
-                        printf("CASE id=%s status=%d errno=%d errs=%u taint=%d out=", s->id,
+                        printf("CASE id=%s status=%d errno=%d errs=%u taint=%d", s->id,
                                s->done ? s->status : -2, err_job, errs1 - errs0, reached[b]);
+                        if (s->direct)
+                                printf(" api=direct:%s fn=%llx", direct_names[s->direct - 1],
+                                       direct_fn_off(s));
+                        printf(" out=");
                         if (s->out_len == 0)
                                 printf("-");
                         for (size_t i = 0; i < s->out_len; i++)
